@@ -6,6 +6,7 @@ CONSTANTS
   MaxCrashes = 2
   MaxDamage = 1
   DamageKinds = {"zero"}
+  PayZero = {FALSE}
   ClearBehind = FALSE
 INIT Init
 NEXT Next
